@@ -105,7 +105,7 @@ func runC13(c *Ctx) {
 		"inside one arpMutex critical section; StopHunt deletes under the mutex. Not decided: real-time bounds, overlap of an old and a new loop after StopHunt/StartHunt."
 	r.Rule("send-classified", "every send in ProcessPacket/spoofLoop is truthful or a guarded forgery", 4)
 	r.Rule("loop-structure", "spoofLoop: membership test each iteration under the mutex, stoppable wait on its own timer, single exit, restore on exit", 8)
-	r.Rule("hunt-admin", "StartHunt idempotent under the mutex; StopHunt deletes under the mutex; 6-byte MACs only, own copy", 6)
+	r.Rule("hunt-admin", "StartHunt idempotent under the mutex; StopHunt deletes under the mutex; 6-byte MACs only, own copy, one loop per MAC", 8)
 	r.Rule("api-truthful", "Request/RequestTo/Probe use the host address pair as sender", 3)
 
 	rel := "handlers/arp_spoofer"
@@ -489,6 +489,7 @@ func runC13(c *Ctx) {
 	// the delete must be unconditional w.r.t. anything but membership: dominated only by the membership test
 	if sh := c.A.Method(rel, "Handler", "StartHunt"); sh != nil {
 		checkHuntMAC(c, "hunt-admin", sh)
+		checkOneLoop(c, "hunt-admin", sh, loop, "Handler.arpMutex")
 	}
 	r.Add(core.Obligation{Rule: "hunt-admin", Key: "hunt-admin functions analysed", Func: "-", Status: core.Proved, Basis: "StartHunt, StopHunt, spoofLoop, ProcessPacket found"})
 	// StopHunt removes the entry under the key StartHunt inserted it with
